@@ -390,23 +390,15 @@ impl PayloadHistory {
         };
 
         // Iterate backwards over the deltas. Skip over those older than we
-        // need.
-        let mut iter = self.deltas.iter().rev();
-        for delta in &mut iter {
-            // delta.serial() is the target serial of the delta, serial is
-            // the target serial the caller has. So we can skip over anything
-            // smaller.
-            match delta.serial().partial_cmp(&serial) {
-                Some(cmp::Ordering::Greater) => return None,
-                Some(cmp::Ordering::Equal) => break,
-                _ => continue
-            }
-        }
-
-        let mut res = match iter.next() {
-            Some(delta) => delta.clone(),
-            None => return Some(Arc::new(PayloadDelta::empty(serial))),
-        };
+        // need: delta.serial() is the target serial of the delta, serial is
+        // the serial the caller has, so the first delta to apply is the one
+        // with target serial + 1. If we don’t have that one, the serial is
+        // either too old or was never issued and we refuse to play.
+        let next = serial.add(1);
+        let mut iter = self.deltas.iter().rev().skip_while(|delta| {
+            delta.serial() != next
+        });
+        let mut res = iter.next()?.clone();
         for delta in iter {
             res = Arc::new(res.merge(delta));
         }
